@@ -146,9 +146,9 @@ Proof.
   intros Hwf H. unfold decode_base in H.
   step3 H ts m1 r1 E1. step3 H ch m2 r2 E2. step3 H fee m3 r3 E3. step1 H u EL. destruct u.
   inversion H; subst b. clear H.
-  destruct (opt_field_canon _ _ _ _ _ _ _ _ _ (enc_int_field (tag 1 WT_VARINT)) (p_int64 _) eq_refl Hwf E1) as [H1 W1].
-  destruct (opt_field_canon _ _ _ _ _ _ _ _ _ (enc_fixed_field (tag 2 WT_LEN)) (p_fixed _ 32) eq_refl W1 E2) as [H2 W2].
-  destruct (opt_field_canon _ _ _ _ _ _ _ _ _ (enc_fint_field (tag 3 WT_I64)) (p_fint64 _) eq_refl W2 E3) as [H3 W3].
+  destruct (opt_field_canon _ _ _ 0%Z _ _ _ _ _ (enc_int_field (tag 1 WT_VARINT)) (p_int64 _) eq_refl Hwf E1) as [H1 W1].
+  destruct (opt_field_canon _ _ _ (zeros 32) _ _ _ _ _ (enc_fixed_field (tag 2 WT_LEN)) (p_fixed _ 32) eq_refl W1 E2) as [H2 W2].
+  destruct (opt_field_canon _ _ _ 0 _ _ _ _ _ (enc_fint_field (tag 3 WT_I64)) (p_fint64 _) eq_refl W2 E3) as [H3 W3].
   apply leftover_ok in EL. subst.
   unfold encode_base. cbn [b_ts b_chain b_fee]. rewrite app_nil_r. reflexivity.
 Qed.
